@@ -3,6 +3,7 @@ package harness
 import (
 	"context"
 	"fmt"
+	"regexp"
 	"strings"
 	"testing"
 	"testing/synctest"
@@ -446,11 +447,13 @@ func fmtVal(v any) string {
 	return fmt.Sprint(v)
 }
 
+var ptrRe = regexp.MustCompile(`0x[0-9a-f]{6,}`)
+
 func fmtErr(err error) string {
 	if err == nil {
 		return "nil"
 	}
-	return err.Error()
+	return ptrRe.ReplaceAllString(err.Error(), "0xPTR") // addresses differ between processes
 }
 
 func (e *Event) String() string {
